@@ -171,7 +171,7 @@ func (t *table) insert(data []byte, isFollower bool, h hash.Hash32, offset wal.O
 
 // Skip informs the table of a new offset so that we can store it
 func (t *table) skip(offset wal.Offset, source int) {
-	t.rowStore.insert(&insert{nil, nil, nil, offset, source})
+	t.rowStore.insert(&insert{nil, nil, nil, offset, source, nil})
 }
 
 func (t *table) doInsert(ts time.Time, dims bytemap.ByteMap, vals bytemap.ByteMap, offset wal.Offset, source int) bool {
@@ -256,11 +256,14 @@ func (t *table) doInsert(ts time.Time, dims bytemap.ByteMap, vals bytemap.ByteMa
 	t.db.capMemorySize(true)
 	inserted := len(additionalVals)
 	if hasMainValue {
-		t.rowStore.insert(&insert{key, encoding.NewTSParams(ts, mainVals), dims, offset, source})
+		// the additional values of arrays are applied along with the main
+		// values, a flush in between would record the entry as done
+		additional := make([]encoding.TSParams, 0, len(additionalVals))
+		for _, subVals := range additionalVals {
+			additional = append(additional, encoding.NewTSParams(ts, subVals))
+		}
+		t.rowStore.insert(&insert{key, encoding.NewTSParams(ts, mainVals), dims, offset, source, additional})
 		inserted++
-	}
-	for _, subVals := range additionalVals {
-		t.rowStore.insert(&insert{key, encoding.NewTSParams(ts, subVals), dims, offset, source})
 	}
 	t.statsMutex.Lock()
 	t.stats.InsertedPoints += int64(inserted)
